@@ -1,6 +1,7 @@
 """C20 - crc7() versus an independent bit-serial CRC-7 (reflected polynomial 0x91)."""
 from __future__ import annotations
 
+import os
 import random
 
 from .common import Acc, stable_hash
@@ -16,7 +17,7 @@ RULE = {
            "(+ error pattern for 'detect')."
 }
 RULE["C20"] += "  'inplace': one bytearray / list / memoryview object changed in place and checksummed again, data iterators that call crc7() themselves; value cases are replayed behind the two preceding messages."
-REQUIRED = {"C20": {"long-zero-run-behind-a-prefix": 300, "shorter-message-after-longer-one": 500, "same-memoryview-object-rechecked": 200, "pair-transition": 65536, "random-message": 500, "same-object-rechecked": 1000, "nested-call": 200,
+REQUIRED = {"C20": {"message-longer-than-4096-bytes": 30, "interpreter-with-optimisation-flag": 1, "long-zero-run-behind-a-prefix": 300, "shorter-message-after-longer-one": 500, "same-memoryview-object-rechecked": 200, "pair-transition": 65536, "random-message": 500, "same-object-rechecked": 1000, "nested-call": 200,
                     "linearity-pair": 200, "single-bit": 500, "double-bit": 5000, "burst": 2000}}
 ASSUMPTIONS = {"C20": ["reference CRC is a 12-line bit-serial shift register written from the statement, "
                        "checked in setup self-test against the navX protocol example vectors"]}
@@ -36,10 +37,10 @@ def ref_crc7(data) -> int:
 
 def shards(pid, tier, seed):
     if tier == "quick":
-        return [{"mode": "pairs"}, {"mode": "fold", "n": 300},
+        return [{"mode": "pairs"}, {"mode": "pyopt", "n": 200}, {"mode": "fold", "n": 300},
                 {"mode": "random", "n": 4000}, {"mode": "linear", "n": 2000}, {"mode": "inplace", "n": 1500},
                 {"mode": "detect", "lens": list(range(1, 13)), "rand": 300}]
-    out = [{"mode": "pairs"}, {"mode": "fold", "n": 3000}]
+    out = [{"mode": "pairs"}, {"mode": "pyopt", "n": 5000}, {"mode": "fold", "n": 3000}]
     out += [{"mode": "random", "n": 150000} for _ in range(6)]
     out += [{"mode": "linear", "n": 40000} for _ in range(2)]
     out += [{"mode": "inplace", "n": 40000} for _ in range(2)]
@@ -298,6 +299,32 @@ def run_shard(spec):
         acc.extra["exhaustive"] = True
         acc.extra["exhaustive_space"] = "all 65 536 two-byte messages, 256 one-byte messages, the empty message"
         acc.samples.append({"mode": "pairs", "msg": [0x12, 0x34], "crc7": crc7(bytes((0x12, 0x34)))})
+    elif mode == "pyopt":
+        # the same function under `python -O` / `-OO` (assert statements and docstrings stripped): a child interpreter
+        # computes the checksums of a batch of messages, the reference is applied here
+        import json as _json
+        import subprocess
+        import sys
+        msgs = [bytes(rng.randrange(256) for _ in range(rng.choice([0, 1, 2, 7, 33, 300]))) for _ in range(spec["n"])]
+        for flag in ("-O", "-OO"):
+            prog = ("import sys, json\nfrom robotpy_ext.misc.crc7 import crc7\n"
+                    "print(json.dumps([crc7(bytes(m)) for m in json.load(sys.stdin)]))")
+            r = subprocess.run([sys.executable, flag, "-c", prog], input=_json.dumps([list(m) for m in msgs]), capture_output=True,
+                               text=True, timeout=300, env=dict(os.environ))
+            acc.evaluations += 1
+            acc.ev("interpreter-with-optimisation-flag")
+            case = {"mode": "pyopt", "flag": flag, "msgs": [list(m) for m in msgs[:20]]}
+            if r.returncode != 0:
+                acc.violation("C20/raised", f"crc7() under `python {flag}` failed: {r.stderr.strip().splitlines()[-1] if r.stderr.strip() else r.returncode}", case, {})
+                continue
+            got = _json.loads(r.stdout.strip().splitlines()[-1])
+            acc.checks += len(msgs)
+            bad = [k for k, m in enumerate(msgs) if got[k] != ref_crc7(m)]
+            if bad:
+                acc.violation("C20/value-mismatch", f"crc7() under `python {flag}` differs from the bit-serial CRC-7 for {len(bad)} of {len(msgs)} messages",
+                              dict(case, msgs=[list(msgs[bad[0]])]), {"got": got[bad[0]], "expected": ref_crc7(msgs[bad[0]])})
+            else:
+                acc.nontrivial.add(stable_hash(["pyopt", flag, len(msgs)]))
     elif mode == "fold":
         for i in range(spec["n"]):
             n = rng.choice([1, 2, 3, 8, 17, 64, rng.randrange(1, 300)])
@@ -319,7 +346,20 @@ def run_shard(spec):
             else:
                 n = rng.randrange(300, 4097)
             style = rng.randrange(5)
-            if style == 4:
+            if i % 97 == 5:
+                # long transfers: several 4096-byte blocks, zero bytes at and around the block boundaries
+                n = rng.choice([4097, 8192, 8193, 12289, 20000])
+                b_ = bytearray(rng.randbytes(n))
+                for k_ in range(4096, n, 4096):
+                    for o_ in (-1, 0, 1):
+                        if rng.random() < 0.7 and k_ + o_ < n:
+                            b_[k_ + o_] = 0
+                msg = bytes(b_)
+                acc.ev("message-longer-than-4096-bytes")
+                style = -1
+            if style == -1:
+                pass
+            elif style == 4:
                 # a long run of zero bytes behind a non-zero prefix (the register keeps cycling through its 127 non-zero states)
                 msg = rng.randbytes(rng.randrange(1, 6)) + bytes(rng.choice([126, 127, 128, 129, 254, 255, 256, 381, 1000])) \
                     + rng.randbytes(rng.randrange(0, 4))
@@ -399,5 +439,20 @@ def run_shard(spec):
 def replay(pid, case):
     from robotpy_ext.misc import crc7 as crc7mod
     acc = Acc()
+    if case.get("mode") == "pyopt":
+        import json as _json
+        import subprocess
+        import sys
+        prog = ("import sys, json\nfrom robotpy_ext.misc.crc7 import crc7\n"
+                "print(json.dumps([crc7(bytes(m)) for m in json.load(sys.stdin)]))")
+        r = subprocess.run([sys.executable, case["flag"], "-c", prog], input=_json.dumps(case["msgs"]), capture_output=True, text=True,
+                           timeout=300, env=dict(os.environ))
+        if r.returncode != 0:
+            return {"key": "C20/raised", "what": f"crc7() under `python {case['flag']}` failed: {r.stderr.strip()[-200:]}", "case": case, "detail": {}}
+        got = _json.loads(r.stdout.strip().splitlines()[-1])
+        bad = [k for k, m in enumerate(case["msgs"]) if got[k] != ref_crc7(bytes(m))]
+        if bad:
+            return {"key": "C20/value-mismatch", "what": f"crc7() under `python {case['flag']}` differs from the bit-serial CRC-7", "case": case, "detail": {}}
+        return None
     run_case(acc, crc7mod, case)
     return acc.violations[0] if acc.violations else None
